@@ -122,6 +122,10 @@ def cases(ctx):
                     if v[6] and ki not in (0, 2):
                         continue
                     yield ("rt", ki, oi, decs) + v
+    # two callers in two threads: one write / read is suspended at EVERY line event inside bec2format and the plug-in adapter while
+    # an unrelated file is written / read completely in a second thread
+    for c in thread_cases(ctx):
+        yield c
     # default recipients: several files written one after another in one process WITHOUT an explicit ECC encryptor, each for
     # another key selector (the published keys are replaced by test keys for the duration of the case)
     from itertools import permutations as _perm
@@ -143,6 +147,98 @@ EPH_CLASSES = ["X-leading-00", "X-leading-04", "Y-leading-00", "X-leading-FF", "
 
 def code_of(ctx, i):
     return [ctx.sym("c02-code", 8), bytes(8), bytes([0x45] * 8)][i]
+
+
+# ---- two callers in two threads ---------------------------------------------------------------------------------------------
+THREAD_CHUNK = 60
+
+
+def _traced(fn):
+    from .. import target
+    return fn.startswith(target.REPO + "/bec2format/") or fn == target.APPNOTES + "/register_crypto_plugin/__init__.py"
+
+
+def _thread_jobs(ctx):
+    """two unrelated files (keys, blocks, content, recipients all differ) -> per file: (make writer, make reader, expected view, key)"""
+    out = []
+    for i, (order, shape) in enumerate(((("cust", "ecc", "upd"), "config"), (("upd", "ecc"), "one"))):
+        key = ctx.sym("c02-thr-key-%d" % i)
+        code = ctx.sym("c02-thr-code-%d" % i, 8)
+        ckey = ctx.sym("c02-thr-ckey-%d" % i)
+        scalar = FX.ecc_scalar(ctx, 5 + i)
+        comps = FX.model_components(ctx, shape)
+        sel = (0, 2)[i]
+
+        def mkfile(order=order, comps=comps, key=key, code=code, sel=sel, i=i):
+            blocks = [{"cust": InitCustKeyAuthBlock, "ecc": lambda: InitEccAuthBlock(sel), "upd": lambda: UpdateAuthBlock(code, 0x20 + i)}[b]() for b in order]
+            return Bec2File(shapes.mk_bf3([("Configuration", "thread-%d" % i)], comps), blocks, key)
+
+        def encs(ckey=ckey, sel=sel, scalar=scalar, code=code):
+            return [SoftwareCustKeyEncryptor(ckey), EccDecryptor(sel, FX.priv_key(scalar)), ConfigSecurityCodeEncryptor(code)]
+
+        def writer(mkfile=mkfile, encs=encs):
+            st = io.StringIO()
+            mkfile().write_file(st, encs()[:2])
+            return st.getvalue()
+
+        def reader(text, encs=encs):
+            r = Bec2File.read_file(io.StringIO(text), encs())
+            return (r.session_key, FX.view(r.bf3file), sorted(r.bf3file.comments.items()), [type(b).__name__ for b in r.auth_blocks.values()])
+        out.append((writer, reader, key))
+    return out
+
+
+def thread_cases(ctx):
+    from .. import preempt
+    jobs = _thread_jobs(ctx)
+    with DetRandom("c02-threads-prep"):
+        texts = [j[0]() for j in jobs]
+    for a_kind in ("write", "read"):
+        fa = jobs[0][0] if a_kind == "write" else (lambda: jobs[0][1](texts[0]))
+        with DetRandom("c02-threads-count"):
+            n = len(preempt.line_events(fa, _traced))
+        for b_kind in ("write", "read"):
+            for c0 in range(0, n, THREAD_CHUNK):
+                yield ("threads", a_kind, b_kind, c0)
+
+
+def run_threads(ctx, case):
+    from .. import preempt
+    _, a_kind, b_kind, c0 = case
+    o = Outcome("threads-ok", True)
+    jobs = _thread_jobs(ctx)
+    with DetRandom("c02-threads-prep"):
+        texts = [j[0]() for j in jobs]
+    expect = [jobs[i][1](texts[i]) for i in (0, 1)]
+    fa = jobs[0][0] if a_kind == "write" else (lambda: jobs[0][1](texts[0]))
+    fb = jobs[1][0] if b_kind == "write" else (lambda: jobs[1][1](texts[1]))
+    with DetRandom("c02-threads-count"):
+        events = preempt.line_events(fa, _traced)
+    n = 0
+    for at in range(c0, min(len(events), c0 + THREAD_CHUNK)):
+        with DetRandom("c02-threads-%r-%d" % (case, at)):
+            ra, rb, ran = preempt.run_preempted(fa, fb, at, _traced)
+        n += 1
+        if not ran:
+            return o.viol("threads|harness", "preemption point %d was not reached" % at)
+        for who, i, kind_, res in (("suspended", 0, a_kind, ra), ("preempting", 1, b_kind, rb)):
+            where = "%s:%d" % events[at]
+            if isinstance(res, BaseException):
+                return o.viol("threads|%s-%s|raised|%s" % (a_kind, b_kind, type(res).__name__),
+                              "the %s %s raised %r when another file was %s at %s" % (who, kind_, res, "written" if b_kind == "write" else "read", where))
+            try:
+                got = jobs[i][1](res) if kind_ == "write" else res
+            except Exception as e:
+                o.cls = "schedule-dependent"
+                return o.viol("threads|%s-%s|%s-file-unreadable" % (a_kind, b_kind, who),
+                              "the file written by the %s call cannot be read back (%r) when the other call ran at %s" % (who, e, where))
+            if got != expect[i]:
+                o.cls = "schedule-dependent"
+                return o.viol("threads|%s-%s|%s-differs" % (a_kind, b_kind, who),
+                              "the %s %s gives another key / content than on its own when the other call (%s of an unrelated file) ran at %s" % (
+                                  who, kind_, b_kind, where))
+    o.extra = {"preemption_points": n}
+    return o
 
 
 def run_defaultseq(ctx, sels):
@@ -182,6 +278,8 @@ def run_defaultseq(ctx, sels):
 
 
 def run_case(ctx, case):
+    if case[0] == "threads":
+        return run_threads(ctx, case)
     if case[0] == "defaultseq":
         return run_defaultseq(ctx, tuple(case[1:]))
     preset = ()
